@@ -146,6 +146,48 @@ _PREFER = {}          # obligation name -> back end that discharged it last time
 FEAS_TIMEOUT_MS = 250
 
 
+def code_fingerprint(node):
+    """hash of a function's AST without its docstring: tells whether the code a unit executed has changed since the
+    baseline was written (comments and layout do not count)"""
+    import hashlib
+    body = list(getattr(node, "body", [])) if not isinstance(node, ast.Lambda) else None
+    if body and isinstance(body[0], ast.Expr) and isinstance(getattr(body[0], "value", None), ast.Constant) \
+            and isinstance(body[0].value.value, str):
+        import copy
+        node = copy.copy(node)
+        node.body = body[1:] or [ast.Pass()]
+    return hashlib.sha1(ast.dump(node).encode()).hexdigest()[:16]
+
+
+_MODFP = {}
+
+
+def module_fingerprint(mod):
+    """hash of the module-level statements that are not function / class definitions (constants, imports) plus the
+    class-level assignments"""
+    import hashlib
+    key = getattr(mod, "path", None)
+    if key in _MODFP:
+        return _MODFP[key]
+    parts = []
+    tree = getattr(mod, "tree", None)
+    for st in (tree.body if tree is not None else []):
+        if isinstance(st, (ast.FunctionDef, ast.AsyncFunctionDef)):
+            continue
+        if isinstance(st, ast.ClassDef):
+            parts.append("class %s(%s)" % (st.name, ",".join(ast.dump(b) for b in st.bases)))
+            for c in st.body:
+                if isinstance(c, (ast.Assign, ast.AnnAssign)):
+                    parts.append(ast.dump(c))
+            continue
+        if isinstance(st, ast.Expr) and isinstance(st.value, ast.Constant) and isinstance(st.value.value, str):
+            continue
+        parts.append(ast.dump(st))
+    fp = hashlib.sha1("\n".join(parts).encode()).hexdigest()[:16]
+    _MODFP[key] = fp
+    return fp
+
+
 class Engine:
     def __init__(self, loader, decisions=(), contracts=None, loops=None, unit=None, timeout_ms=QUICK_TIMEOUT_MS,
                  tables=None, inline=None, replay=None):
@@ -175,6 +217,7 @@ class Engine:
         self.heap_log = []        # (op, obj, detail) for frame checks
         self.loop_guard = None
         self.inner_pending = None
+        self.executed = {}          # qualname -> fingerprint of every function body executed on this path
         self._loop_rng = {}
         # solver answers of the run this one was forked from: a child run repeats its parent's queries up to the
         # fork point (execution is deterministic), so those answers are replayed instead of recomputed
@@ -634,6 +677,11 @@ class Engine:
         return self.ev(node, fr)
 
     def call_func(self, f, args, kwargs, yield_cb=None):
+        if f.qualname not in self.executed:
+            self.executed[f.qualname] = code_fingerprint(f.node)
+            mk = "%s:<module level>" % getattr(f.module, "name", "?")
+            if mk not in self.executed:
+                self.executed[mk] = module_fingerprint(f.module)
         locals_ = self.bind_args(f, args, kwargs)
         fr = Frame(f, f.module, locals_, f.closure)
         if isinstance(f.node, ast.Lambda):
